@@ -298,6 +298,120 @@ theorem header_verdict_iff_spec (sha256hex : Bytes → Bytes) (hmac : Bytes → 
     refine ⟨a, secret, d, payload, hc, h1, h2, h3, ?_⟩
     rw [hsig, headerSignature_eq_spec sha256hex hmac c raw a secret d payload hraw hw, hc.scopeDate, h2, h3]
 
+/-! ## the payload line: what the code signs is what the request declares, whatever the method -/
+
+/-- the payload line the AWS documents prescribe for a header-authenticated request: the value of the (unique)
+    `x-amz-content-sha256` header, edge blanks removed, which is one of the two keywords or the digest of the body
+    (`SigV4Spec.verifyHeaderAuth` refuses a digest that is not the body's). No condition on the method. -/
+def SpecPayloadLine (sha256hex : Bytes → Bytes) (c : Ctx) (pl : Bytes) : Prop :=
+  ∃ v, getUnique c.hs b!"x-amz-content-sha256" = some v ∧ pl = trimOws v ∧
+    (pl = b!"UNSIGNED-PAYLOAD" ∨ pl = b!"STREAMING-AWS4-HMAC-SHA256-PAYLOAD" ∨ pl = sha256hex c.body)
+
+/-- `extract_full_body` returns the body or an error -/
+theorem extractFullBody_ok {c : Ctx} {bytes : Bytes} (h : extractFullBody c = .ok bytes) : bytes = c.body := by
+  unfold extractFullBody at h
+  split at h
+  · injection h with h; exact h.symm
+  · split at h
+    · injection h with h; exact h.symm
+    · split at h
+      · cases h
+      · split at h
+        · injection h with h; exact h.symm
+        · cases h
+
+/-- the payload line `v4_check_header_auth` puts into the canonical request is the declared one, for every method
+    (before the repair of `sigv4-get-head-body`: false for GET / HEAD with a body and a digest).
+    `hempty`: the constant `EMPTY_STRING_SHA256_HASH` is the digest of the empty string. -/
+theorem payloadLine_declared (sha256hex : Bytes → Bytes) (hempty : sha256hex [] = emptySha256) (c : Ctx)
+    (sha : Option ContentSha) (payload : Payload) (hsha : extractContentSha c.hs = .ok sha)
+    (hpl : headerPayload c sha = .ok payload) (pl : Bytes) (hspec : SpecPayloadLine sha256hex c pl) :
+    payloadLine sha256hex payload = pl := by
+  obtain ⟨v, hv, hplv, hcases⟩ := hspec
+  unfold extractContentSha at hsha
+  rw [hv] at hsha
+  simp only [] at hsha
+  rw [← hplv] at hsha
+  cases hp : parseContentSha pl with
+  | none => rw [hp] at hsha; cases hsha
+  | some x =>
+    rw [hp] at hsha
+    injection hsha with hsha
+    subst hsha
+    unfold parseContentSha at hp
+    unfold headerPayload at hpl
+    by_cases hu : pl = b!"UNSIGNED-PAYLOAD"
+    · rw [if_pos hu] at hp
+      injection hp with hp
+      subst hp
+      rw [if_neg (by decide), if_pos rfl] at hpl
+      injection hpl with hpl
+      subst hpl
+      exact hu.symm
+    · rw [if_neg hu] at hp
+      by_cases hs : pl = b!"STREAMING-AWS4-HMAC-SHA256-PAYLOAD"
+      · rw [if_pos hs] at hp
+        injection hp with hp
+        subst hp
+        rw [if_pos rfl] at hpl
+        injection hpl with hpl
+        subst hpl
+        exact hs.symm
+      · rw [if_neg hs] at hp
+        have hbody : pl = sha256hex c.body := by
+          rcases hcases with h | h | h
+          · exact absurd h hu
+          · exact absurd h hs
+          · exact h
+        by_cases hk : isSha256Checksum pl = true
+        · rw [if_pos hk] at hp
+          injection hp with hp
+          subst hp
+          rw [if_neg (by simp), if_neg (by simp)] at hpl
+          cases hb : extractFullBody c with
+          | error e => rw [hb] at hpl; cases hpl
+          | ok bytes =>
+            rw [hb] at hpl
+            have hbytes := extractFullBody_ok hb
+            injection hpl with hpl
+            subst hpl
+            by_cases he : bytes = []
+            · rw [if_pos he, hbody, ← hbytes, he, hempty]
+              rfl
+            · rw [if_neg he, hbody, ← hbytes]
+              rfl
+        · rw [if_neg hk] at hp
+          cases hp
+
+/-- the specification's view of the request `v4_check_header_auth` authenticates, with the DECLARED payload line -/
+def Ctx.specRequest (c : Ctx) (raw : List (Bytes × Bytes)) (signed : List Bytes) (pl : Bytes) : SigV4Spec.Request :=
+  { method := c.method, path := c.path, query := c.qs, headers := effectiveRaw c.http2 c.authority raw,
+    signedHeaders := signed, payload := pl }
+
+/-- acceptance iff the presented signature is the specification's signature of the request WITH THE DECLARED PAYLOAD
+    LINE — whatever the method: a GET or HEAD request that carries a body is treated like any other -/
+theorem header_verdict_iff_spec_declared (sha256hex : Bytes → Bytes) (hmac : Bytes → Bytes → Bytes)
+    (look : Bytes → Option Bytes) (c : Ctx) (raw : List (Bytes × Bytes)) (ak region service : Bytes)
+    (hraw : orderedHeaders raw = some c.hs) (hwf : wfHeaderAuth c = true) (hempty : sha256hex [] = emptySha256)
+    (pl : Bytes) (hspec : SpecPayloadLine sha256hex c pl) :
+    v4CheckHeaderAuth sha256hex hmac (some look) c = .accept ak region service ↔
+      ∃ a secret d payload, HeaderChecks look c a secret d payload ∧
+        a.credential.accessKey = ak ∧ a.credential.region = region ∧ a.credential.service = service ∧
+        a.signature = SigV4Spec.signature sha256hex hmac secret d.fmtIso8601 ⟨a.credential.date, region, service⟩
+          (c.specRequest raw a.signedHeaders pl) := by
+  rw [header_verdict_iff_spec sha256hex hmac look c raw ak region service hraw hwf]
+  have key : ∀ (a : Authorization) (secret : Bytes) (d : AmzDate) (payload : Payload),
+      HeaderChecks look c a secret d payload →
+      (c.req raw a.signedHeaders payload).toSpec sha256hex = c.specRequest raw a.signedHeaders pl := by
+    intro a secret d payload hc
+    obtain ⟨sha, hsha, _, hpl, _⟩ := hc.mode
+    simp only [Ctx.req, Req.toSpec, Ctx.specRequest, payloadLine_declared sha256hex hempty c sha payload hsha hpl pl hspec]
+  constructor
+  · rintro ⟨a, secret, d, payload, hc, h1, h2, h3, hsig⟩
+    exact ⟨a, secret, d, payload, hc, h1, h2, h3, by rw [← key a secret d payload hc]; exact hsig⟩
+  · rintro ⟨a, secret, d, payload, hc, h1, h2, h3, hsig⟩
+    exact ⟨a, secret, d, payload, hc, h1, h2, h3, by rw [key a secret d payload hc]; exact hsig⟩
+
 /-! ## presigned URLs -/
 
 /-- everything besides window and signature that `v4_check_presigned_url` demands -/
